@@ -226,6 +226,13 @@ class SemanticErrorChecker:
             True if the given TaskCall statement is valid.
         """
         if self.check_if_task_in_taskcall_exists(task_call.name, task_call.context):
+            if self.task_reaches(task_call.name, task_context.name, set()):
+                error_msg = (
+                    f"The call of Task '{task_call.name}' leads back to Task "
+                    f"'{task_context.name}' (recursion is not supported)"
+                )
+                self.error_handler.print_error(error_msg, context=task_call.context)
+                return False
             if not (
                 self.check_call_parameters(task_call, task_context)
                 and self.check_if_task_call_matches_with_called_task(task_call, task_context)
@@ -234,6 +241,30 @@ class SemanticErrorChecker:
         else:
             return False
         return True
+
+    def called_task_names(self, statements: List) -> List[str]:
+        """Returns the names of all Tasks called by the given statements (at any nesting depth)."""
+        names = []
+        for statement in statements:
+            if isinstance(statement, TaskCall):
+                names.append(statement.name)
+            elif isinstance(statement, Parallel):
+                names.extend(task_call.name for task_call in statement.task_calls)
+            elif isinstance(statement, Condition):
+                names.extend(self.called_task_names(statement.passed_stmts + statement.failed_stmts))
+            elif isinstance(statement, (WhileLoop, CountingLoop)):
+                names.extend(self.called_task_names(statement.statements))
+        return names
+
+    def task_reaches(self, task_name: str, target: str, visited: set) -> bool:
+        """Checks if the Task `target` can be reached from the Task `task_name` via Task calls."""
+        if task_name in visited or task_name not in self.tasks:
+            return False
+        if task_name == target:
+            return True
+        visited.add(task_name)
+        called = self.called_task_names(self.tasks[task_name].statements)
+        return any(self.task_reaches(name, target, visited) for name in called)
 
     def check_if_task_call_matches_with_called_task(self, task_call: TaskCall, task: Task) -> bool:
         """Checks if the parameters of the Taskcall matches with the parameters of the Task.
